@@ -10,6 +10,7 @@ import (
 	"github.com/vapourismo/knx-go/knx"
 	"github.com/vapourismo/knx-go/knx/knxnet"
 	"github.com/vapourismo/knx-go/verifmc/mc"
+	"verifh/enum/refenc"
 	"verifh/harness/fakesock"
 	"verifh/harness/h"
 )
@@ -28,6 +29,36 @@ type Call struct {
 }
 
 func (c Call) String() string { return fmt.Sprintf("CALL %s#%d", c.Call, c.ID) }
+
+// BusyAnnounced is logged when a busy indication is put on the wire: the wait time it announces.
+type BusyAnnounced struct{ WaitMs int }
+
+func (b BusyAnnounced) String() string { return fmt.Sprintf("BUSY-ANNOUNCED %d ms", b.WaitMs) }
+
+// deliverBusy: the indication as the octets a router sends (built by the independent reference
+// encoder), decoded by the library's own decoder as its socket receiver would, then handed to the
+// client - so that the wait time the client acts on is the one the library read from the wire.
+func deliverBusy(sock *fakesock.Sock, waitMs int, control uint16) {
+	mc.Log(BusyAnnounced{waitMs})
+	raw := refenc.RoutingBusy(0, uint16(waitMs), control)
+	var svc knxnet.Service
+	if _, err := knxnet.Unpack(raw, &svc); err != nil {
+		mc.Log(Note("busy indication rejected by the decoder: " + err.Error()))
+		return
+	}
+	sock.Deliver(svc)
+}
+
+// deliverLost: a lost indication as wire octets through the library's decoder (see deliverBusy).
+func deliverLost(sock *fakesock.Sock, count int) {
+	raw := refenc.RoutingLost(0, uint16(count))
+	var svc knxnet.Service
+	if _, err := knxnet.Unpack(raw, &svc); err != nil {
+		mc.Log(Note("lost indication rejected by the decoder: " + err.Error()))
+		return
+	}
+	sock.Deliver(svc)
+}
 
 type c13Params struct {
 	pause       int // ms
@@ -77,7 +108,7 @@ func c13Run(p c13Params) func() {
 		busy := func() {
 			w := p.waits[mc.Choose(len(p.waits), mc.Free)]
 			ctl := uint16(mc.Choose(2, mc.Free)) // 0 adds the random term, 1 does not
-			sock.Deliver(&knxnet.RoutingBusy{WaitTime: mc.Duration(w) * ms, Control: 1 - ctl})
+			deliverBusy(sock, w, 1-ctl)
 		}
 		sock.OnSend = func(s *fakesock.Sent) {
 			if _, ok := s.Svc.(*knxnet.RoutingInd); !ok || busyLeft == 0 || p.flat {
@@ -106,6 +137,7 @@ func c13Run(p c13Params) func() {
 		if p.busyAtStart && mc.Choose(2, mc.Fault) == 1 {
 			busyLeft--
 			busy()
+			mc.Sleep(1 * ms) // the Sends begin after the indication was taken in
 		}
 		done := mc.NewChan[int](p.senders, "c13.done")
 		for s := 0; s < p.senders; s++ {
@@ -117,7 +149,7 @@ func c13Run(p c13Params) func() {
 					err := r.Send(Msg(base + k))
 					mc.Log(Ret{"Send", base + k, errStr(err), t0})
 					if p.flat && (base+k)%40 == 17 {
-						sock.Deliver(&knxnet.RoutingBusy{WaitTime: 30 * ms, Control: 1})
+						deliverBusy(sock, 30, 1)
 					}
 				}
 				done.Send(1)
@@ -129,10 +161,10 @@ func c13Run(p c13Params) func() {
 		if p.lost > 0 {
 			mc.Sleep(200 * ms)
 			mc.Log(Note("lost"))
-			sock.Deliver(&knxnet.RoutingLost{Count: uint16(p.lost)})
+			deliverLost(sock, p.lost)
 			// the busy indication arrives before / after the first / second repeat
 			mc.Sleep(mc.Duration(mc.Choose(3, mc.Free)) * (Pp + 1*ms))
-			sock.Deliver(&knxnet.RoutingBusy{WaitTime: mc.Duration([]int{50, 10}[mc.Choose(2, mc.Free)]) * ms, Control: 1})
+			deliverBusy(sock, []int{50, 10}[mc.Choose(2, mc.Free)], 1)
 		}
 		mc.Sleep(1000 * ms)
 		r.Close()
@@ -163,6 +195,7 @@ func c13Oracle(p c13Params) func(tr *mc.Trace) []h.Violation {
 			w mc.Duration
 		}
 		var busies []busyev
+		var announced []int
 		const resendID = -7
 		lostSeen := false
 		lostAt := mc.Duration(0)
@@ -202,9 +235,16 @@ func c13Oracle(p c13Params) func(tr *mc.Trace) []h.Violation {
 						s.tx, s.hasTx = e.T, true
 					}
 				}
+			case BusyAnnounced:
+				announced = append(announced, x.WaitMs)
 			case fakesock.Handed:
 				if b, ok := x.Svc.(*knxnet.RoutingBusy); ok {
 					w := b.WaitTime
+					// the wait time that counts is the one the router put on the wire (indications are
+					// taken from the socket in the order they were sent)
+					if len(busies) < len(announced) {
+						w = mc.Duration(announced[len(busies)]) * ms
+					}
 					if w > 50*ms {
 						w = 50 * ms
 					}
@@ -316,6 +356,9 @@ func init() {
 		q := c13Params{pauseUs: us, senders: 2, perSender: 2, maxBusy: 1, waits: []int{0, 10}}
 		register("both", &h.Scenario{Name: fmt.Sprintf("C13-pause%dus-2x2-busy1", us), Prop: "C13", P: 1, F: 1, D: 1, Run: c13Run(q), Check: c13Oracle(q)})
 	}
+	// announced wait times around the 50 ms cap and beyond one octet (255 / 256 ms)
+	bw := c13Params{pause: 5, senders: 2, perSender: 1, maxBusy: 1, waits: []int{49, 50, 51, 255, 256, 280, 305, 306, 65535}, busyAtStart: true}
+	register("both", &h.Scenario{Name: "C13-pause5-2x1-busy1-wire-wait-times", Prop: "C13", P: 1, F: 1, D: 1, Run: c13Run(bw), Check: c13Oracle(bw)})
 	// a transmission fails in the socket write: the transmissions after it are paced as before
 	wf := c13Params{pause: 20, senders: 2, perSender: 3, writeFails: 1}
 	register("both", &h.Scenario{Name: "C13-pause20-2x3-write-fails", Prop: "C13", P: 1, F: 1, D: 1, Run: c13Run(wf), Check: c13Oracle(wf)})
